@@ -43,6 +43,7 @@ import CtyModel.Props.C11
 import CtyModel.Lemmas.CoversWeaken
 import CtyModel.Lemmas.C12Funcs
 import CtyModel.Lemmas.d12bLeaf
+import CtyModel.Lemmas.d12cCall
 namespace CtyModel
 namespace C12
 open Fn Std
@@ -1129,6 +1130,105 @@ theorem stdlib_static_leaf_functions_sound (sy : Generated.StdSyntax) (hsy : sy 
   exact sound_leaf_arguments _ _ impl os ws r (fun _ => D12b.typeMonoAt_of_eq rfl)
     (fun t ht => by cases ht; exact C11.staticTy_wf e T hT) hk hleaf hmo hmw hcov hty hnu hlen hrwf hrefl hr
 
+/-! ### slice d12c: the per-function statements carried THROUGH the declared `refineNonNull`, to `Function.Call` itself
+
+`call_refined_covers` asks of the value the weakened call yields before the refinement that it be unmarked at the
+top and not a known value of the placeholder type.  That is a fact about the callback: `ImplTopClean`, proved of the
+modelled `Impl`s on mark-free arguments (Lemmas/d12cCall.lean).  So the corollaries below have no hypothesis about
+the weakened outcome; what they ask of the CONCRETE result `r` (known, non-null, mark-free, of a proper type with
+the payload kind the type prescribes) is decidable and discharged on the instances at the end of the file. -/
+
+/-- what the deferred refinement needs of a callback: every value it returns on `ws` is unmarked at the top and is
+not a known value of the placeholder type -/
+def ImplTopClean := D12c.ImplTopClean
+
+/-- the concrete result is a value `RefineNotNull` hands back as it is (clause 2 is stated about successful
+calls returning known values) -/
+def ConcreteResultOK (r : Value) : Prop :=
+  r.containsMarked = false ∧ fitsTop r.ty r.v = true ∧ r.ty.isDyn = false
+
+/-- **Clause 1 and 2 through `Function.Call`, for ALL specs declaring `refineNonNull`**: the unrefined statement
+(the conclusion of every `sound_<fn>`) plus `ImplTopClean` give: the concrete `Call` returns `r`, the weakened
+call gets to a value, and EVERY value the weakened `Call` returns — after `RefineResult` — admits `r`. -/
+theorem sound_lifts_to_refined_call (spec : Spec) (tf : TypeFn) (impl : ImplFn) (os ws : List Value) (r : Value)
+    (hrf : spec.refine = some Stdlib.refineNN) (hmw : ∀ a ∈ ws, a.containsMarked = false)
+    (hI : ImplTopClean tf impl ws)
+    (hs : ∃ u, (callUnrefined spec tf impl ws).1 = .ok u ∧ Covers u r = true)
+    (hrk : ConcreteResultOK r) (hr : (callUnrefined spec tf impl os).1 = .ok r) :
+    (call spec tf impl os).1 = .ok r ∧ (∃ u, (callUnrefined spec tf impl ws).1 = .ok u) ∧
+      ∀ x, (call spec tf impl ws).1 = .ok x → Covers x r = true :=
+  D12c.refined_call_of_sound spec tf impl os ws r hrf hmw hI hs hrk.1 hrk.2.1 hrk.2.2 hr
+
+/-- **`keys` through `Function.Call`** (declared refinement included) -/
+theorem sound_keys_call (o w r : Value) (hk : o.whollyKnown = true)
+    (hmo : o.containsMarked = false) (hmw : w.containsMarked = false)
+    (hty : w.ty = o.ty ∨ w.ty.isDyn = true) (hc : CoversX w o = true)
+    (hrwf : Ty.wf r.ty = true) (hrefl : Covers r r = true) (hrk : ConcreteResultOK r)
+    (hr : (callUnrefined Stdlib.keysSpec Stdlib.keysType Stdlib.keysImpl [o]).1 = .ok r) :
+    (call Stdlib.keysSpec Stdlib.keysType Stdlib.keysImpl [o]).1 = .ok r ∧
+    (∃ u, (callUnrefined Stdlib.keysSpec Stdlib.keysType Stdlib.keysImpl [w]).1 = .ok u) ∧
+    ∀ x, (call Stdlib.keysSpec Stdlib.keysType Stdlib.keysImpl [w]).1 = .ok x → Covers x r = true :=
+  sound_lifts_to_refined_call _ _ _ [o] [w] r rfl (by simpa using hmw)
+    (D12c.keys_topClean [w] (by simpa using hmw)) (sound_keys o w r hk hmo hmw hty hc hrwf hrefl hr) hrk hr
+
+/-- **`values` through `Function.Call`** -/
+theorem sound_values_call (E : Stdlib.Env) (o w r : Value) (hk : o.whollyKnown = true) (hwf : Ty.wf w.ty = true)
+    (hmo : o.containsMarked = false) (hmw : w.containsMarked = false)
+    (hty : w.ty = o.ty ∨ w.ty.isDyn = true) (hc : CoversX w o = true)
+    (hrwf : Ty.wf r.ty = true) (hrefl : Covers r r = true) (hrk : ConcreteResultOK r)
+    (hr : (callUnrefined Stdlib.valuesSpec Stdlib.valuesType (Stdlib.valuesImpl E) [o]).1 = .ok r) :
+    (call Stdlib.valuesSpec Stdlib.valuesType (Stdlib.valuesImpl E) [o]).1 = .ok r ∧
+    (∃ u, (callUnrefined Stdlib.valuesSpec Stdlib.valuesType (Stdlib.valuesImpl E) [w]).1 = .ok u) ∧
+    ∀ x, (call Stdlib.valuesSpec Stdlib.valuesType (Stdlib.valuesImpl E) [w]).1 = .ok x → Covers x r = true :=
+  sound_lifts_to_refined_call _ _ _ [o] [w] r rfl (by simpa using hmw)
+    (D12c.values_topClean E [w] (by simpa using hmw)) (sound_values E o w r hk hwf hmo hmw hty hc hrwf hrefl hr) hrk hr
+
+/-- **`reverse` through `Function.Call`** (the unknown list a set with an unknown member is answered by becomes,
+refined, the non-null unknown list: still admits the reversed concrete members) -/
+theorem sound_reverse_call (E : Stdlib.Env) (o w r : Value) (hk : o.whollyKnown = true) (hwf : Ty.wf w.ty = true)
+    (hmo : o.containsMarked = false) (hmw : w.containsMarked = false)
+    (hty : w.ty = o.ty ∨ w.ty.isDyn = true) (hc : CoversX w o = true)
+    (hset : Stdlib.isSetTy o.ty = true → w.whollyKnown = false ∨ w = o)
+    (hrwf : Ty.wf r.ty = true) (hrefl : Covers r r = true) (hrk : ConcreteResultOK r)
+    (hr : (callUnrefined Stdlib.reverseSpec Stdlib.reverseType (Stdlib.reverseImpl E) [o]).1 = .ok r) :
+    (call Stdlib.reverseSpec Stdlib.reverseType (Stdlib.reverseImpl E) [o]).1 = .ok r ∧
+    (∃ u, (callUnrefined Stdlib.reverseSpec Stdlib.reverseType (Stdlib.reverseImpl E) [w]).1 = .ok u) ∧
+    ∀ x, (call Stdlib.reverseSpec Stdlib.reverseType (Stdlib.reverseImpl E) [w]).1 = .ok x → Covers x r = true :=
+  sound_lifts_to_refined_call _ _ _ [o] [w] r rfl (by simpa using hmw)
+    (D12c.reverse_topClean E [w] (by simpa using hmw))
+    (sound_reverse E o w r hk hwf hmo hmw hty hc hset hrwf hrefl hr) hrk hr
+
+/-- **`compact` through `Function.Call`** -/
+theorem sound_compact_call (E : Stdlib.Env) (o w r : Value) (hk : o.whollyKnown = true)
+    (hmo : o.containsMarked = false) (hmw : w.containsMarked = false) (hs : D12b.noSet w.v = true)
+    (hty : w.ty = o.ty ∨ w.ty.isDyn = true) (hc : CoversX w o = true)
+    (hrwf : Ty.wf r.ty = true) (hrefl : Covers r r = true) (hrk : ConcreteResultOK r)
+    (hr : (callUnrefined Stdlib.compactSpec Stdlib.compactType (Stdlib.compactImpl E) [o]).1 = .ok r) :
+    (call Stdlib.compactSpec Stdlib.compactType (Stdlib.compactImpl E) [o]).1 = .ok r ∧
+    (∃ u, (callUnrefined Stdlib.compactSpec Stdlib.compactType (Stdlib.compactImpl E) [w]).1 = .ok u) ∧
+    ∀ x, (call Stdlib.compactSpec Stdlib.compactType (Stdlib.compactImpl E) [w]).1 = .ok x → Covers x r = true :=
+  sound_lifts_to_refined_call _ _ _ [o] [w] r rfl (by simpa using hmw)
+    (D12c.compact_topClean E [w]) (sound_compact E o w r hk hmo hmw hs hty hc hrwf hrefl hr) hrk hr
+
+/-- **`distinct` through `Function.Call`** -/
+theorem sound_distinct_call (E : Stdlib.Env) (o w r : Value) (hk : o.whollyKnown = true) (hwf : Ty.wf o.ty = true)
+    (hmo : o.containsMarked = false) (hmw : w.containsMarked = false) (hs : D12b.noSet w.v = true)
+    (hty : w.ty = o.ty ∨ w.ty.isDyn = true) (hc : CoversX w o = true)
+    (hrwf : Ty.wf r.ty = true) (hrefl : Covers r r = true) (hrk : ConcreteResultOK r)
+    (hr : (callUnrefined Stdlib.distinctSpec Stdlib.distinctType (Stdlib.distinctImpl E) [o]).1 = .ok r) :
+    (call Stdlib.distinctSpec Stdlib.distinctType (Stdlib.distinctImpl E) [o]).1 = .ok r ∧
+    (∃ u, (callUnrefined Stdlib.distinctSpec Stdlib.distinctType (Stdlib.distinctImpl E) [w]).1 = .ok u) ∧
+    ∀ x, (call Stdlib.distinctSpec Stdlib.distinctType (Stdlib.distinctImpl E) [w]).1 = .ok x → Covers x r = true :=
+  sound_lifts_to_refined_call _ _ _ [o] [w] r rfl (by simpa using hmw)
+    (D12c.distinct_topClean E [w]) (sound_distinct E o w r hk hwf hmo hmw hs hty hc hrwf hrefl hr) hrk hr
+
+/-- clause 3 for `compact`: the list it returns holds members of the argument only -/
+theorem known_in_known_out_compact (E : Stdlib.Env) (args : List Value) (r : Value)
+    (hk : ∀ a ∈ args, a.whollyKnown = true) (hm : ∀ a ∈ args, a.containsMarked = false)
+    (hr : (callUnrefined Stdlib.compactSpec Stdlib.compactType (Stdlib.compactImpl E) args).1 = .ok r) :
+    r.whollyKnown = true ∨ r = Value.unknown .dyn :=
+  known_in_known_out _ _ _ args r (D12c.knownOut_compact E) hk hm hr
+
 /-! ### the hypotheses are satisfiable -/
 
 example : TypeMonoW (C11.staticType (.list .string)) := static_typeMonoW _
@@ -1447,6 +1547,46 @@ example : ∃ r', (callUnrefined { params := [{ ty := .string }] } (C11.staticTy
     [⟨.string, .s "ab"⟩] [⟨.string, .unk (.nullable .f)⟩] ⟨.string, .s "ab"⟩ (fun _ => D12b.typeMonoAt_of_eq rfl)
     (fun t ht => by cases ht; rfl) (by decide) (by decide) (by decide) (by decide) (by decide) ⟨Or.inl rfl, trivial⟩
     (by decide) rfl (by decide) (by decide) (by rfl)
+
+/-! ### d12c: joint witnesses for the `_call` corollaries — every hypothesis discharged on a real weakened
+argument list, and the refined outcome of `Function.Call` computed -/
+
+def exKeysR : Value := ⟨.list .string, .seq [.s "k", .s "l"]⟩
+/-- `keys` of a map with an unknown element value; of an UNKNOWN map (refined: the non-null unknown list) -/
+example : ∀ x, (call Stdlib.keysSpec Stdlib.keysType Stdlib.keysImpl [exMw]).1 = .ok x → Covers x exKeysR = true :=
+  (sound_keys_call exM exMw exKeysR (by decide) (by decide) (by decide) (Or.inl rfl)
+    (by decide) (by decide) (by decide) ⟨by decide, by decide, by decide⟩ (by rfl)).2.2
+example : ∀ x, (call Stdlib.keysSpec Stdlib.keysType Stdlib.keysImpl [⟨.map .number, .unk (.coll .f 2 2)⟩]).1 = .ok x →
+    Covers x exKeysR = true :=
+  (sound_keys_call exM ⟨.map .number, .unk (.coll .f 2 2)⟩ exKeysR (by decide) (by decide)
+    (by decide) (Or.inl rfl) (by decide) (by decide) (by decide) ⟨by decide, by decide, by decide⟩ (by rfl)).2.2
+/-- the conclusion is about a call that does return: the refined outcome on the unknown map -/
+example : (call Stdlib.keysSpec Stdlib.keysType Stdlib.keysImpl [⟨.map .number, .unk (.coll .f 2 2)⟩]).1 =
+    .ok ⟨.list .string, .unk (.coll .f 0 9223372036854775807)⟩ := by rfl
+
+example : ∀ x, (call Stdlib.valuesSpec Stdlib.valuesType (Stdlib.valuesImpl {}) [exMw]).1 = .ok x →
+    Covers x ⟨.list .number, .seq [.n (.fin false 1 0 64), .n (.fin false 1 1 64)]⟩ = true :=
+  (sound_values_call {} exM exMw ⟨.list .number, .seq [.n (.fin false 1 0 64), .n (.fin false 1 1 64)]⟩ (by decide) (by decide)
+    (by decide) (by decide) (Or.inl rfl) (by decide) (by decide) (by decide) ⟨by decide, by decide, by decide⟩ (by rfl)).2.2
+
+example : ∀ x, (call Stdlib.reverseSpec Stdlib.reverseType (Stdlib.reverseImpl {}) [exLw]).1 = .ok x →
+    Covers x ⟨.list .string, .seq [.s "b", .s "a"]⟩ = true :=
+  (sound_reverse_call {} exL exLw ⟨.list .string, .seq [.s "b", .s "a"]⟩ (by decide) (by decide) (by decide) (by decide)
+    (Or.inl rfl) (by decide) (by intro h; cases h) (by decide) (by decide) ⟨by decide, by decide, by decide⟩ (by rfl)).2.2
+
+example : ∀ x, (call Stdlib.compactSpec Stdlib.compactType (Stdlib.compactImpl {}) [exLw]).1 = .ok x → Covers x exL = true :=
+  (sound_compact_call {} exL exLw exL (by decide) (by decide) (by decide) (by decide) (Or.inl rfl) (by decide)
+    (by decide) (by decide) ⟨by decide, by decide, by decide⟩ (by rfl)).2.2
+/-- `compact` of the partly unknown list through `Call`: the unknown list of strings, refined not-null -/
+example : (call Stdlib.compactSpec Stdlib.compactType (Stdlib.compactImpl {}) [exLw]).1 =
+    .ok ⟨.list .string, .unk (.coll .f 0 9223372036854775807)⟩ := by rfl
+
+example : ∀ x, (call Stdlib.distinctSpec Stdlib.distinctType (Stdlib.distinctImpl {}) [exLw]).1 = .ok x → Covers x exL = true :=
+  (sound_distinct_call {} exL exLw exL (by decide) (by decide) (by decide) (by decide) (by decide) (Or.inl rfl) (by decide)
+    (by decide) (by decide) ⟨by decide, by decide, by decide⟩ (by rfl)).2.2
+
+example : ((callUnrefined Stdlib.compactSpec Stdlib.compactType (Stdlib.compactImpl {}) [exL]).1 = .ok exL) ∧
+    exL.whollyKnown = true := ⟨by rfl, by decide⟩
 
 end C12
 end CtyModel
